@@ -117,7 +117,7 @@ def handle (j : Json) : Except String Json := do
     let h ← (← j.getObjVal? "helper").getStr?
     let ok ← getB j "vlen_ok" false
     match h with
-    | "dummy" => return outcomeJson (fun g => Json.mkObj [("mem", geffJson g)]) (createDummyInMemGeff (← getParams j))
+    | "dummy" => return outcomeJson (fun g => Json.mkObj [("mem", geffJson g)]) (createDummyInMemGeff ok (← getParams j))
     | "mock" => return mockJson (createMockGeff ok (← getParams j))
     | "empty" => return mockJson (createEmptyGeff ok (← getB j "directed" false))
     | _ =>
